@@ -138,4 +138,332 @@ theorem ilog2_spec {x : ℚ} (hx : 0 < x) : pow2 (ilog2 x) ≤ x ∧ x < pow2 (i
     rw [show (a : ℤ) - b - 1 + 1 = (a : ℤ) - b by ring]
     exact not_le.mp h
 
+/-- `ilog2` is the unique exponent whose binade contains `x` -/
+theorem ilog2_unique {x : ℚ} {b : ℤ} (h1 : pow2 b ≤ x) (h2 : x < pow2 (b + 1)) : ilog2 x = b := by
+  have hx : 0 < x := lt_of_lt_of_le (pow2_pos b) h1
+  obtain ⟨s1, s2⟩ := ilog2_spec hx
+  have a1 : ilog2 x < b + 1 := by
+    by_contra hc
+    have := pow2_mono (not_lt.mp hc)
+    linarith
+  have a2 : b < ilog2 x + 1 := by
+    by_contra hc
+    have := pow2_mono (not_lt.mp hc)
+    linarith
+  omega
+
+theorem ilog2_mono {x y : ℚ} (hx : 0 < x) (h : x ≤ y) : ilog2 x ≤ ilog2 y := by
+  obtain ⟨s1, _⟩ := ilog2_spec hx
+  obtain ⟨_, t2⟩ := ilog2_spec (lt_of_lt_of_le hx h)
+  by_contra hc
+  have := pow2_mono (show ilog2 y + 1 ≤ ilog2 x by omega)
+  linarith
+
+/-! ### fl64 -/
+
+theorem fl64_zero : fl64 0 = 0 := by simp [fl64]
+
+theorem fl64_eq {x : ℚ} (hx : x ≠ 0) :
+    fl64 x = ((roundHalfEven (x / pow2 (ulpExp x)) : ℤ) : ℚ) * pow2 (ulpExp x) := by
+  simp [fl64, hx]
+
+theorem ulpExp_neg (x : ℚ) : ulpExp (-x) = ulpExp x := by
+  unfold ulpExp
+  rcases lt_trichotomy x 0 with h | h | h
+  · have : ¬ (-x < 0) := by linarith
+    simp [h, this]
+  · subst h; simp
+  · have : -x < 0 := by linarith
+    have h' : ¬ x < 0 := by linarith
+    simp [h', this]
+
+/-- rounding is odd: fl64 (−x) = −fl64 x -/
+theorem fl64_neg (x : ℚ) : fl64 (-x) = -fl64 x := by
+  by_cases hx : x = 0
+  · subst hx; simp [fl64_zero]
+  · rw [fl64_eq hx, fl64_eq (neg_ne_zero.mpr hx), ulpExp_neg, neg_div, rhe_neg]
+    push_cast; ring
+
+/-- the rounding error is at most half a unit in the last place -/
+theorem fl64_err (x : ℚ) : |fl64 x - x| ≤ pow2 (ulpExp x) / 2 := by
+  by_cases hx : x = 0
+  · subst hx; rw [fl64_zero]; simp; exact le_of_lt (half_pos (pow2_pos _))
+  · rw [fl64_eq hx]
+    set u := pow2 (ulpExp x) with hu
+    have hup : 0 < u := pow2_pos _
+    have h := rhe_abs_le (x / u)
+    have : ((roundHalfEven (x / u) : ℤ) : ℚ) * u - x = (((roundHalfEven (x / u) : ℤ) : ℚ) - x / u) * u := by
+      field_simp
+    rw [this, abs_mul, abs_of_pos hup]
+    calc |((roundHalfEven (x / u) : ℤ) : ℚ) - x / u| * u ≤ 1 / 2 * u :=
+          mul_le_mul_of_nonneg_right h (le_of_lt hup)
+      _ = u / 2 := by ring
+
+/-- a non-zero multiple of its own ulp is representable -/
+theorem fl64_of_mul_ulp {x : ℚ} (n : ℤ) (h : x = n * pow2 (ulpExp x)) : fl64 x = x := by
+  by_cases hx : x = 0
+  · subst hx; exact fl64_zero
+  · rw [fl64_eq hx]
+    have hup : pow2 (ulpExp x) ≠ 0 := ne_of_gt (pow2_pos _)
+    have : x / pow2 (ulpExp x) = n := by rw [div_eq_iff hup]; exact h
+    rw [this, rhe_int]; exact h.symm
+
+theorem ulpExp_pos {x : ℚ} (hx : 0 < x) :
+    ulpExp x = (if ilog2 x < -1022 then -1022 else ilog2 x) - 52 := by
+  unfold ulpExp; simp [not_lt.mpr (le_of_lt hx)]
+
+/-- bracket of the rounded value of a positive number -/
+theorem fl64_bracket {x : ℚ} (hx : 0 < x) :
+    (if -1022 ≤ ilog2 x then pow2 (ulpExp x + 52) else 0) ≤ fl64 x ∧ fl64 x ≤ pow2 (ulpExp x + 52 + 1) := by
+  obtain ⟨s1, s2⟩ := ilog2_spec hx
+  rw [fl64_eq (ne_of_gt hx)]
+  set u := pow2 (ulpExp x) with hu
+  have hup : 0 < u := pow2_pos _
+  have e52 : pow2 (ulpExp x + 52) = ((2 ^ 52 : ℤ) : ℚ) * u := by
+    rw [add_comm, pow2_add, hu]; congr 1
+  have e53 : pow2 (ulpExp x + 52 + 1) = ((2 ^ 53 : ℤ) : ℚ) * u := by
+    rw [pow2_succ, e52]; push_cast; ring
+  by_cases hn : -1022 ≤ ilog2 x
+  · have hue : ulpExp x + 52 = ilog2 x := by rw [ulpExp_pos hx]; split_ifs <;> omega
+    rw [if_pos hn]
+    have l1 : ((2 ^ 52 : ℤ) : ℚ) ≤ x / u := by
+      rw [le_div_iff₀ hup, ← e52, hue]; exact s1
+    have l2 : x / u ≤ ((2 ^ 53 : ℤ) : ℚ) := by
+      rw [div_le_iff₀ hup, ← e53, hue]; exact le_of_lt s2
+    have r1 := rhe_mono l1
+    have r2 := rhe_mono l2
+    rw [rhe_int] at r1 r2
+    rw [e52, e53]
+    constructor
+    · exact mul_le_mul_of_nonneg_right (by exact_mod_cast r1) (le_of_lt hup)
+    · exact mul_le_mul_of_nonneg_right (by exact_mod_cast r2) (le_of_lt hup)
+  · rw [if_neg hn]
+    have hue : ulpExp x + 52 = -1022 := by rw [ulpExp_pos hx]; split_ifs <;> omega
+    have l1 : ((0 : ℤ) : ℚ) ≤ x / u := by simp; positivity
+    have hx2 : x < pow2 (-1022) := lt_of_lt_of_le s2 (pow2_mono (by omega))
+    have l2 : x / u ≤ ((2 ^ 52 : ℤ) : ℚ) := by
+      rw [div_le_iff₀ hup, ← e52, hue]; exact le_of_lt hx2
+    have r1 := rhe_mono l1
+    have r2 := rhe_mono l2
+    rw [rhe_int] at r1 r2
+    constructor
+    · exact mul_nonneg (by exact_mod_cast r1) (le_of_lt hup)
+    · rw [e53]
+      have : ((roundHalfEven (x / u) : ℤ) : ℚ) ≤ ((2 ^ 53 : ℤ) : ℚ) := by
+        have : roundHalfEven (x / u) ≤ 2 ^ 53 := le_trans r2 (by norm_num)
+        exact_mod_cast this
+      exact mul_le_mul_of_nonneg_right this (le_of_lt hup)
+
+theorem fl64_nonneg {x : ℚ} (hx : 0 ≤ x) : 0 ≤ fl64 x := by
+  rcases eq_or_lt_of_le hx with h | h
+  · rw [← h, fl64_zero]
+  · have := (fl64_bracket h).1
+    split_ifs at this
+    · exact le_trans (le_of_lt (pow2_pos _)) this
+    · exact this
+
+theorem fl64_mono_pos {x y : ℚ} (hx : 0 < x) (h : x ≤ y) : fl64 x ≤ fl64 y := by
+  have hy : 0 < y := lt_of_lt_of_le hx h
+  have hl := ilog2_mono hx h
+  by_cases hu : ulpExp x = ulpExp y
+  · rw [fl64_eq (ne_of_gt hx), fl64_eq (ne_of_gt hy), hu]
+    have hup := pow2_pos (ulpExp y)
+    have : x / pow2 (ulpExp y) ≤ y / pow2 (ulpExp y) := div_le_div_of_nonneg_right h (le_of_lt hup)
+    have r := rhe_mono this
+    exact mul_le_mul_of_nonneg_right (by exact_mod_cast r) (le_of_lt hup)
+  · -- different binades: a power of two separates the two rounded values
+    have hux := ulpExp_pos hx
+    have huy := ulpExp_pos hy
+    have hlt : ulpExp x + 52 + 1 ≤ ulpExp y + 52 := by
+      rw [hux, huy] at hu ⊢; split_ifs at hu ⊢ <;> omega
+    have hny : -1022 ≤ ilog2 y := by
+      rw [hux, huy] at hlt; split_ifs at hlt <;> omega
+    have b1 := (fl64_bracket hx).2
+    have b2 := (fl64_bracket hy).1
+    rw [if_pos hny] at b2
+    exact le_trans b1 (le_trans (pow2_mono hlt) b2)
+
+/-- rounding to binary64 is monotone -/
+theorem fl64_mono {x y : ℚ} (h : x ≤ y) : fl64 x ≤ fl64 y := by
+  rcases lt_trichotomy x 0 with hx | hx | hx
+  · rcases lt_trichotomy y 0 with hy | hy | hy
+    · -- both negative: use oddness
+      have := fl64_mono_pos (show 0 < -y by linarith) (show -y ≤ -x by linarith)
+      rw [fl64_neg, fl64_neg] at this; linarith
+    · subst hy; rw [fl64_zero]
+      have := fl64_nonneg (show 0 ≤ -x by linarith); rw [fl64_neg] at this; linarith
+    · have a := fl64_nonneg (show 0 ≤ -x by linarith); rw [fl64_neg] at a
+      have b := fl64_nonneg (le_of_lt hy); linarith
+  · subst hx; rw [fl64_zero]; exact fl64_nonneg h
+  · exact fl64_mono_pos hx h
+
+/-- `x` is a binary64 value -/
+def IsF64 (x : ℚ) : Prop := fl64 x = x
+
+theorem ulpExp_of_bracket {y : ℚ} {b : ℤ} (hb : -1022 ≤ b) (h1 : pow2 b ≤ y) (h2 : y < pow2 (b + 1)) :
+    ulpExp y = b - 52 := by
+  have hy : 0 < y := lt_of_lt_of_le (pow2_pos b) h1
+  rw [ulpExp_pos hy, ilog2_unique h1 h2]; split_ifs <;> omega
+
+theorem ulpExp_of_small {y : ℚ} (hy : 0 < y) (h2 : y < pow2 (-1022)) : ulpExp y = -1022 - 52 := by
+  obtain ⟨s1, _⟩ := ilog2_spec hy
+  have : ilog2 y < -1022 := by
+    by_contra hc
+    have := pow2_mono (not_lt.mp hc); linarith
+  rw [ulpExp_pos hy]; split_ifs <;> omega
+
+/-- rounding is idempotent: a rounded value is a binary64 value -/
+theorem fl64_idem (x : ℚ) : fl64 (fl64 x) = fl64 x := by
+  -- reduce to positive x by oddness
+  suffices hpos : ∀ x : ℚ, 0 < x → fl64 (fl64 x) = fl64 x by
+    rcases lt_trichotomy x 0 with hx | hx | hx
+    · have := hpos (-x) (by linarith)
+      rw [fl64_neg, fl64_neg] at this; linarith
+    · subst hx; simp [fl64_zero]
+    · exact hpos x hx
+  intro x hx
+  obtain ⟨s1, s2⟩ := ilog2_spec hx
+  set y := fl64 x with hy
+  have hyeq := fl64_eq (ne_of_gt hx)
+  set u := pow2 (ulpExp x) with hu
+  set n := roundHalfEven (x / u) with hn
+  have hup : 0 < u := pow2_pos _
+  have e52 : pow2 (ulpExp x + 52) = ((2 ^ 52 : ℤ) : ℚ) * u := by
+    rw [add_comm, pow2_add, hu]; congr 1
+  have e53 : pow2 (ulpExp x + 52 + 1) = ((2 ^ 53 : ℤ) : ℚ) * u := by
+    rw [pow2_succ, e52]; push_cast; ring
+  have hb := fl64_bracket hx
+  rw [← hy] at hb
+  have hyn : y = (n : ℚ) * u := by rw [hy, hyeq]
+  by_cases hnorm : -1022 ≤ ilog2 x
+  · have hue : ulpExp x + 52 = ilog2 x := by rw [ulpExp_pos hx]; split_ifs <;> omega
+    rw [if_pos hnorm] at hb
+    rcases lt_or_eq_of_le hb.2 with hlt | heq
+    · -- same binade
+      have : ulpExp y = ulpExp x := by
+        rw [ulpExp_of_bracket (b := ulpExp x + 52) (by omega) hb.1 hlt]; omega
+      exact fl64_of_mul_ulp n (by rw [this]; exact hyn)
+    · -- rounded up to the next power of two
+      have hy1 : pow2 (ulpExp x + 52 + 1) ≤ y := le_of_eq heq.symm
+      have hy2 : y < pow2 (ulpExp x + 52 + 1 + 1) := by rw [heq]; exact pow2_strict_mono (by omega)
+      have : ulpExp y = ulpExp x + 1 := by
+        rw [ulpExp_of_bracket (b := ulpExp x + 52 + 1) (by omega) hy1 hy2]; omega
+      refine fl64_of_mul_ulp (2 ^ 52) ?_
+      rw [this, pow2_succ, heq, e53]; push_cast; ring
+  · rw [if_neg hnorm] at hb
+    have hue : ulpExp x + 52 = -1022 := by rw [ulpExp_pos hx]; split_ifs <;> omega
+    rcases eq_or_lt_of_le hb.1 with h0 | hpos'
+    · rw [← h0]; exact fl64_zero
+    · -- subnormal or the smallest normal number
+      have hx2 : x < pow2 (-1022) := lt_of_lt_of_le s2 (pow2_mono (by omega))
+      have l2 : x / u ≤ ((2 ^ 52 : ℤ) : ℚ) := by
+        rw [div_le_iff₀ hup, ← e52, hue]; exact le_of_lt hx2
+      have r2 := rhe_mono l2
+      rw [rhe_int, ← hn] at r2
+      have hyle : y ≤ pow2 (-1022) := by
+        rw [hyn, ← hue, e52]
+        exact mul_le_mul_of_nonneg_right (by exact_mod_cast r2) (le_of_lt hup)
+      have huy : ulpExp y = ulpExp x := by
+        rcases lt_or_eq_of_le hyle with hlt | heq
+        · rw [ulpExp_of_small hpos' hlt]; omega
+        · have h2 : y < pow2 (-1022 + 1) := by rw [heq]; exact pow2_strict_mono (by omega)
+          rw [ulpExp_of_bracket (b := -1022) (by omega) (le_of_eq heq.symm) h2]; omega
+      exact fl64_of_mul_ulp n (by rw [huy]; exact hyn)
+
+theorem isF64_fl64 (x : ℚ) : IsF64 (fl64 x) := fl64_idem x
+
+/-- relative error of a normal number: at most 2^-53 -/
+theorem fl64_rel_err {x : ℚ} (hx : pow2 (-1022) ≤ |x|) : |fl64 x - x| ≤ pow2 (-53) * |x| := by
+  have key : ∀ z : ℚ, 0 < z → pow2 (-1022) ≤ z → |fl64 z - z| ≤ pow2 (-53) * z := by
+    intro z hz hn
+    obtain ⟨s1, _⟩ := ilog2_spec hz
+    have hlog : -1022 ≤ ilog2 z := by
+      by_contra hc
+      obtain ⟨_, s2⟩ := ilog2_spec hz
+      have := pow2_mono (show ilog2 z + 1 ≤ -1022 by omega); linarith
+    have hue : ulpExp z = ilog2 z - 52 := by rw [ulpExp_pos hz]; split_ifs <;> omega
+    have := fl64_err z
+    rw [hue] at this
+    have e : pow2 (ilog2 z - 52) / 2 = pow2 (-53) * pow2 (ilog2 z) := by
+      rw [show ilog2 z - 52 = (-53) + ilog2 z + 1 by ring, pow2_succ, pow2_add]; ring
+    rw [e] at this
+    exact le_trans this (mul_le_mul_of_nonneg_left s1 (le_of_lt (pow2_pos _)))
+  rcases lt_trichotomy x 0 with h | h | h
+  · have := key (-x) (by linarith) (by rwa [abs_of_neg h] at hx)
+    rw [fl64_neg] at this
+    rw [abs_of_neg h, show fl64 x - x = -(-fl64 x - -x) by ring, abs_neg]; exact this
+  · subst h; simp at hx; exact absurd hx (not_le.mpr (pow2_pos _))
+  · rw [abs_of_pos h] at hx ⊢; exact key x h hx
+
+/-- 1 is a binary64 value, so `x / x` rounds to exactly 1 -/
+theorem fl64_one : fl64 1 = 1 := by
+  have h1 : pow2 0 ≤ (1 : ℚ) := by rw [pow2_eq_zpow]; norm_num
+  have h2 : (1 : ℚ) < pow2 (0 + 1) := by rw [pow2_eq_zpow]; norm_num
+  have hu : ulpExp 1 = 0 - 52 := ulpExp_of_bracket (by omega) h1 h2
+  refine fl64_of_mul_ulp (2 ^ 52) ?_
+  rw [hu, pow2_eq_zpow]; norm_num
+
+theorem fdiv_self {x : ℚ} (hx : x ≠ 0) : fdiv x x = 1 := by
+  unfold fdiv; rw [div_self hx, fl64_one]
+
+/-- adding 0.0 to a binary64 value is exact -/
+theorem fadd_zero {x : ℚ} (hx : IsF64 x) : fadd x 0 = x := by
+  unfold fadd; rw [add_zero]; exact hx
+
+theorem fadd_mono_left {a b c : ℚ} (h : a ≤ b) : fadd a c ≤ fadd b c := by
+  unfold fadd; exact fl64_mono (by linarith)
+
+theorem fdiv_mono_left {a b c : ℚ} (hc : 0 < c) (h : a ≤ b) : fdiv a c ≤ fdiv b c := by
+  unfold fdiv; exact fl64_mono (div_le_div_of_nonneg_right h (le_of_lt hc))
+
+/-- adding a non-negative float never decreases a binary64 value -/
+theorem le_fadd_of_nonneg {x y : ℚ} (hx : IsF64 x) (hy : 0 ≤ y) : x ≤ fadd x y := by
+  unfold fadd
+  calc x = fl64 x := hx.symm
+    _ ≤ fl64 (x + y) := fl64_mono (by linarith)
+
+/-- every dyadic `m·2^k` with `|m| < 2^53` and `k ≥ -1074` is a binary64 value (overflow is not modelled) -/
+theorem isF64_dyadic (m : ℤ) (k : ℤ) (hm : |m| < 2 ^ 53) (hk : -1074 ≤ k) : IsF64 ((m : ℚ) * pow2 k) := by
+  suffices hpos : ∀ m : ℤ, 0 < m → m < 2 ^ 53 → IsF64 ((m : ℚ) * pow2 k) by
+    rcases lt_trichotomy m 0 with h | h | h
+    · have := hpos (-m) (by omega) (by rw [abs_of_neg h] at hm; exact hm)
+      unfold IsF64 at this ⊢
+      have e : ((-m : ℤ) : ℚ) * pow2 k = -((m : ℚ) * pow2 k) := by push_cast; ring
+      rw [e, fl64_neg] at this; linarith
+    · subst h; simp [IsF64, fl64_zero]
+    · exact hpos m h (by rw [abs_of_pos h] at hm; exact hm)
+  intro m hm0 hm53
+  set x : ℚ := (m : ℚ) * pow2 k with hxdef
+  have hkp := pow2_pos k
+  have hx : 0 < x := mul_pos (by exact_mod_cast hm0) hkp
+  obtain ⟨s1, _⟩ := ilog2_spec hx
+  -- x < 2^(53+k) hence ilog2 x ≤ 52 + k
+  have hxlt : x < pow2 (53 + k) := by
+    rw [pow2_add, hxdef]
+    apply mul_lt_mul_of_pos_right _ hkp
+    rw [pow2_eq_zpow]; exact_mod_cast hm53
+  have hlog : ilog2 x < 53 + k := by
+    by_contra hc
+    have := pow2_mono (not_lt.mp hc); linarith
+  have hule : ulpExp x ≤ k := by rw [ulpExp_pos hx]; split_ifs <;> omega
+  obtain ⟨d, hd⟩ := Int.eq_ofNat_of_zero_le (show 0 ≤ k - ulpExp x by omega)
+  unfold IsF64
+  refine fl64_of_mul_ulp (m * 2 ^ d) ?_
+  have : pow2 k = ((2 ^ d : ℤ) : ℚ) * pow2 (ulpExp x) := by
+    rw [show k = (d : ℤ) + ulpExp x by omega, pow2_add]
+    congr 1
+  conv_lhs => rw [hxdef, this]
+  push_cast; ring
+
+/-- integers up to 2^53 in absolute value are binary64 values -/
+theorem isF64_int (n : ℤ) (hn : |n| < 2 ^ 53) : IsF64 (n : ℚ) := by
+  have := isF64_dyadic n 0 hn (by omega)
+  rwa [show pow2 0 = 1 by rw [pow2_eq_zpow]; norm_num, mul_one] at this
+
+/-- float addition of two integer-valued floats is exact while the sum stays below 2^53 -/
+theorem fadd_int (a b : ℤ) (h : |a + b| < 2 ^ 53) : fadd (a : ℚ) (b : ℚ) = ((a + b : ℤ) : ℚ) := by
+  unfold fadd
+  have := isF64_int (a + b) h
+  unfold IsF64 at this; push_cast at this ⊢; exact this
+
 end Soft64
